@@ -340,14 +340,14 @@ pub fn gen(rng: &mut Rng, tier: &str) -> Vec<Line> {
     v.push(l.done());
   };
   push0(&Properties::default(), &mut v);
-  let n0 = if thorough { 150_000 } else { 2_000 };
+  let n0 = if thorough { 25_000 } else { 2_000 };
   for j in 0..n0 {
     let p = rand_props(rng, j % 10 == 0);
     push0(&p, &mut v);
   }
   // ---- op 1: bounded decompression
   let br = Some(b"br".to_vec());
-  let n1 = if thorough { 20_000 } else { 300 };
+  let n1 = if thorough { 5_000 } else { 300 };
   v.push(decompress_case(&[], &br));
   v.push(decompress_case(&[1, 2, 3], &None));
   v.push(decompress_case(&[1, 2, 3], &Some(b"gzip".to_vec())));
@@ -399,7 +399,7 @@ pub fn gen(rng: &mut Rng, tier: &str) -> Vec<Line> {
     v.push(decompress_case(&value, &enc));
   }
   // ---- op 3: candidate choice (brotli at quality 11 is slow: few cases)
-  let n3 = if thorough { 3_000 } else { 60 };
+  let n3 = if thorough { 400 } else { 60 };
   for _ in 0..n3 {
     let p = rand_props(rng, false);
     let c = candidates(&p);
@@ -412,7 +412,7 @@ pub fn gen(rng: &mut Rng, tier: &str) -> Vec<Line> {
     v.push(l.done());
   }
   // ---- op 4: arbitrary / malformed bytes
-  let n4 = if thorough { 300_000 } else { 5_000 };
+  let n4 = if thorough { 200_000 } else { 5_000 };
   for _ in 0..n4 {
     let b = malformed(rng);
     let mut l = L::new().p(4u8);
